@@ -107,3 +107,87 @@ def _status(ctx, fi):
             if ".value == " in o.key and "not " not in o.key.split("[")[-1].split(";")[-1]:
                 o.verdict = "discharged"
                 o.detail = "unchanged-energy test"
+
+
+LS = "nifty.cl.minimization.line_search"
+
+
+def r16_2(ctx):
+    """success of the line search implies the strong Wolfe conditions at the returned point"""
+    from ..terms import inline_at
+    m = ctx.model
+    L = m.cls(LS, "LineSearch")
+    ctx.saw_class(L)
+    ctx.rule("R16.2", "every successful return of the line search (perform_line_search and _zoom) is dominated by the sufficient-decrease "
+                      "test phi(a) <= phi(0) + c1*a*phi'(0) and by the STRONG curvature test |phi'(a)| <= -c2*phi'(0), both evaluated at "
+                      "the very point whose energy is returned", floor=2)
+    pls = L.methods.get("perform_line_search")
+    zm = L.methods.get("_zoom")
+    if pls is None or zm is None:
+        ctx.error("LineSearch.perform_line_search/_zoom missing")
+        return
+    # roles in perform_line_search
+    le0 = phi0 = dphi0 = None
+    for st in walk_no_nested(pls.node):
+        if isinstance(st, ast.Assign) and isinstance(st.targets[0], ast.Name) and isinstance(st.value, ast.Call) and call_name(st.value) == "LineEnergy" \
+                and st.value.args and src(st.value.args[0]) in ("0.0", "0", "0.") and src(st.value.args[1]) == pls.params()[1]:
+            le0 = st.targets[0].id
+    for st in walk_no_nested(pls.node):
+        if isinstance(st, ast.Assign) and isinstance(st.targets[0], ast.Name) and le0:
+            if src(st.value) == f"{le0}.value":
+                phi0 = st.targets[0].id
+            if src(st.value) == f"{le0}.directional_derivative":
+                dphi0 = st.targets[0].id
+    ctx.check("R16.2", f"{pls.key}::phi(0) and phi'(0) are taken at the start point", None not in (le0, phi0, dphi0), f"{le0}, {phi0}, {dphi0}", pls)
+    z = [c for c in ast.walk(pls.node) if isinstance(c, ast.Call) and src(c.func) == "self._zoom"]
+    zp = zm.params()
+    ctx.check("R16.2", f"{pls.key}::zoom receives phi(0), phi'(0) and the start line energy",
+              bool(z) and len(zp) >= 9 and all(len(c.args) == 8 and [src(a) for a in c.args][2:4] == [phi0, dphi0] and src(c.args[-1]) == le0 for c in z), None, pls)
+    roles = {"perform_line_search": (pls, phi0, dphi0), "_zoom": (zm, zp[3] if len(zp) > 4 else None, zp[4] if len(zp) > 4 else None)}
+    for name, (fi, p0, d0) in roles.items():
+        ctx.saw_func(fi)
+        if p0 is None or d0 is None:
+            ctx.und("R16.2", f"{fi.key}::roles", "phi(0)/phi'(0) not identified", fi)
+            continue
+        cfg = cfg_of(fi)
+        rd = cfg.reaching_defs(fi.params())
+        for r in [n for n in cfg.nodes if n.kind == "stmt" and isinstance(n.ast, ast.Return)]:
+            v = r.ast.value
+            if not (isinstance(v, ast.Tuple) and len(v.elts) == 2 and isinstance(v.elts[1], ast.Constant) and v.elts[1].value is True):
+                continue
+            key = f"{fi.key}::successful return of <line energy>.energy"
+            e0 = v.elts[0]
+            le = src(e0.value) if isinstance(e0, ast.Attribute) and e0.attr == "energy" else None
+            if le is None:
+                ctx.und("R16.2", key, "returned energy is not <line energy>.energy", fi, r.ast)
+                continue
+            atoms = known_atoms(cfg, r.id)
+            strong = weak = armijo = False
+            alpha = None
+            ldef = inline_at(cfg, rd, r.id, ast.Name(id=le, ctx=ast.Load()), depth=1)
+            if isinstance(ldef, ast.Call) and call_name(ldef) == "at" and ldef.args:
+                alpha = src(ldef.args[0])
+            for t, pol in atoms:
+                ti = inline_at(cfg, rd, r.id, t, depth=1, stop=(p0, d0, le, alpha or "", "self"))
+                txt = src(ti)
+                if pol and f"abs({le}.directional_derivative) <= -self.c2 * {d0}" == txt:
+                    strong = True
+                elif pol and "self.c2" in txt and f"{le}.directional_derivative" in txt:
+                    weak = True
+                if not pol and alpha and f"{le}.value > {p0} + self.c1 * {alpha} * {d0}" in txt:
+                    armijo = True
+            why = []
+            if not strong:
+                why.append("curvature guard is " + ("a one-sided (weak Wolfe) test" if weak else "missing") +
+                           ": a point with a steep positive slope can be reported as success")
+            if not armijo:
+                why.append("sufficient-decrease test at the returned point not found among the guards")
+            ctx.check("R16.2", key, strong and armijo, "; ".join(why) or None, fi, r.ast)
+
+
+_run_c16 = run
+
+
+def run(ctx):  # noqa: F811
+    _run_c16(ctx)
+    r16_2(ctx)
